@@ -237,7 +237,15 @@ def realize(n):
     if k == "ProcessXor": return cs.ProcessXor(E(n["key"]), R(n["sub"]))
     if k == "ProcessRotateLeft": return cs.ProcessRotateLeft(E(n["amount"]), E(n["group"]), R(n["sub"]))
     if k == "Checksum":
-        return cs.Checksum(R(n["field"]), _hashes()[n["hash"]], E(n["over"]))
+        h = _hashes()[n["hash"]]
+        def recording_hash(data, n=n, h=h):
+            # the hash is an uninterpreted function in the specification: its graph on the explored inputs is logged here
+            d = h(data)
+            kd = V.enc(data)
+            if kd not in n["hk"]:
+                n["hk"].append(kd); n["hv"].append(V.enc(d))
+            return d
+        return cs.Checksum(R(n["field"]), recording_hash, E(n["over"]))
     if k == "Hex": return cs.Hex(R(n["sub"]))
     if k == "HexDump": return cs.HexDump(R(n["sub"]))
     if k == "Alias": return getattr(cs, n["name"])
